@@ -94,9 +94,18 @@ func randObjs(rng *rand.Rand, n, startID int) []*Obj {
 func randAtom(rng *rand.Rand, tag int, id *int) *Filt {
 	next := func() int { *id++; return *id }
 	objs := func(kinds ...int) []*Obj {
+		// a set of source objects as it comes out of a cache: no two of them
+		// share namespace and name (the constructors sort by these, and the
+		// order of two sources with the same key would be arbitrary)
 		var r []*Obj
+		seen := map[[2]int]bool{}
 		for i, n := 0, rng.Intn(4); i < n; i++ {
-			r = append(r, randObj(rng, kinds[rng.Intn(len(kinds))], next()))
+			o := randObj(rng, kinds[rng.Intn(len(kinds))], next())
+			if seen[[2]int{o.NS, o.NM}] {
+				continue
+			}
+			seen[[2]int{o.NS, o.NM}] = true
+			r = append(r, o)
 		}
 		return r
 	}
